@@ -88,3 +88,59 @@ pub fn catch<T>(f: impl FnOnce() -> T + std::panic::UnwindSafe) -> Result<T, Str
         }
     })
 }
+
+/// Run `f` in a forked child with a wall-clock limit and an address-space limit, so that an endless
+/// loop or runaway allocation in the code under test becomes an observable outcome instead of
+/// taking the harness down.  Returns Ok(result string) | Err("hang") | Err("crash:<status>").
+pub fn isolated(timeout_ms: u64, mem_mb: u64, f: impl FnOnce() -> String) -> Result<String, String> {
+    use std::io::{Read, Write};
+    use std::os::unix::io::FromRawFd;
+    let mut fds = [0i32; 2];
+    unsafe {
+        if libc::pipe(fds.as_mut_ptr()) != 0 {
+            return Err("pipe failed".into());
+        }
+        let pid = libc::fork();
+        if pid < 0 {
+            return Err("fork failed".into());
+        }
+        if pid == 0 {
+            libc::close(fds[0]);
+            let lim = libc::rlimit { rlim_cur: mem_mb * 1024 * 1024, rlim_max: mem_mb * 1024 * 1024 };
+            libc::setrlimit(libc::RLIMIT_AS, &lim);
+            let r = std::panic::catch_unwind(std::panic::AssertUnwindSafe(f));
+            let s = match r {
+                Ok(s) => s,
+                Err(_) => "panic".to_string(),
+            };
+            let mut w = std::fs::File::from_raw_fd(fds[1]);
+            let _ = w.write_all(s.as_bytes());
+            drop(w);
+            libc::_exit(0);
+        }
+        libc::close(fds[1]);
+        let start = std::time::Instant::now();
+        let mut status = 0i32;
+        loop {
+            let r = libc::waitpid(pid, &mut status, libc::WNOHANG);
+            if r == pid {
+                break;
+            }
+            if start.elapsed().as_millis() as u64 > timeout_ms {
+                libc::kill(pid, libc::SIGKILL);
+                libc::waitpid(pid, &mut status, 0);
+                libc::close(fds[0]);
+                return Err("hang".into());
+            }
+            std::thread::sleep(std::time::Duration::from_millis(1));
+        }
+        let mut rd = std::fs::File::from_raw_fd(fds[0]);
+        let mut s = String::new();
+        let _ = rd.read_to_string(&mut s);
+        if libc::WIFEXITED(status) && libc::WEXITSTATUS(status) == 0 {
+            Ok(s)
+        } else {
+            Err(format!("crash:{status}"))
+        }
+    }
+}
